@@ -1721,8 +1721,12 @@ class Interp:
             if this is not None and '::' not in s:
                 ms = self.w.find_method(this.cls, s)
                 if ms:
-                    fd = self.resolve_overload(ms, args, s)
-                    return self.invoke(fd, args, this, cells, targs=f.targs)
+                    try:
+                        fd = self.resolve_overload(ms, args, s)
+                    except Unsupported:
+                        fd = None      # a namespace-qualified free function of the same name (detail::f inside member f)
+                    if fd is not None:
+                        return self.invoke(fd, args, this, cells, targs=f.targs)
             if this is not None and '::' in s:
                 # Base::method(...)
                 cls_part, last = s.rsplit('::', 1)
@@ -2269,6 +2273,17 @@ class Interp:
                         out.append(x)
                 lst[i0:i1] = out + seg[len(out):]
                 return ('vit', lst, i0 + len(out))
+            from .values import DataView as _DV, DataPtr as _DP, ite as _ite, cmp as _cmp
+            if s == 'std::sort' and len(a) == 2 and isinstance(a[0], _DV) and isinstance(a[1], _DP) and a[1].view.m is a[0].m and a[1].off == len(a[0]) == 2:
+                # two-element range: (min, max)
+                x, y = a[0][0], a[0][1]
+                if not is_sym(x) and not is_sym(y):
+                    a[0][0], a[0][1] = min(x, y), max(x, y)
+                else:
+                    c = z3real(x) <= z3real(y)
+                    a[0][0], a[0][1] = z3.If(c, z3real(x), z3real(y)), z3.If(c, z3real(y), z3real(x))
+                self.fire('std::sort(2 elements)->min/max')
+                return None
             raise Unsupported(s + ' on symbolic data')
         if s in ('std::ostringstream', 'std::stringstream'):
             return Stream()
